@@ -326,9 +326,32 @@ def days366 : List (Nat × Nat) :=
 def countValid {K : Type} (l : List (Schedule K)) (md : Nat × Nat) (wd : Nat) : Nat :=
   (validSchedules l md wd).length
 
-/-- breakpoints of a loaded schedule: strictly increasing times, first one 0 -/
+/-- strictly increasing breakpoint times -/
+def strictTimesB {K : Type} : List (Rat × K) → Bool
+  | [] => true
+  | a :: l => l.all (fun b => decide (a.1 < b.1)) && strictTimesB l
+
+def startsAtZeroB {K : Type} : List (Rat × K) → Bool
+  | [] => false
+  | p :: _ => p.1 == 0
+
+/-- every breakpoint is a non-negative whole number of half hours -/
+def halfHoursB {K : Type} (l : List (Rat × K)) : Bool :=
+  l.all fun p => (p.1 * 2).den == 1 && decide (0 ≤ p.1)
+
+/-- breakpoints of a loaded schedule: strictly increasing times, the first one 0, all on half hours -/
 def breakpointsOk {K : Type} (s : Schedule K) : Bool :=
-  let ts := s.tariffs.map (·.1)
-  (ts.head? == some 0) && (ts.zip ts.tail).all (fun p => decide (p.1 < p.2))
+  strictTimesB s.tariffs && startsAtZeroB s.tariffs && halfHoursB s.tariffs
+
+/-- the loaded schedules of a file (empty if the loader raises) -/
+def loadedOf {K : Type} [LT K] [DecidableLT K] (raws : List (Raw K)) : List (Schedule K) :=
+  match load raws with
+  | .ok l => l
+  | .error _ => []
+
+def loadsOk {K : Type} [LT K] [DecidableLT K] (raws : List (Raw K)) : Bool :=
+  match load raws with
+  | .ok _ => true
+  | .error _ => false
 
 end Acn.Tariff
